@@ -227,8 +227,8 @@ PROPS['C07'] = dict(
     trusted_base=['models Mkdb/Model/Exec.lean, Mkdb/Spec/Query.lean'],
 )
 PROPS['C18'] = dict(
-    lean=['Mkdb.Props.C18', 'Mkdb.Props.C09'], facts=EXEC_FACTS + ['skeleton.engine.Session.ExecQuery'], sig_filter=r'exec:(panic|hang|no-output)',
-    runs=[dict(cmd='exec', proto='exec', args=['confused'])],
+    lean=['Mkdb.Props.C18', 'Mkdb.Props.C09'], facts=EXEC_FACTS + ['skeleton.engine.Session.ExecQuery'], sig_filter=r'exec:(panic|hang|no-output)|sess:(panic|hang)',
+    runs=[dict(cmd='exec', proto='exec', args=['confused']), dict(cmd='sess', proto='sess', corpus='C17')],
     claim='Proof (partial): C18_no_panic_partial - for every database whose rows have one value per column (NULLs, any types) and '
           'every SELECT of a shape the parser produces, the model of EvaluateSelect returns rows or an error value; the only panic '
           'left is the ORDER BY comparator meeting two non-NULL values of different types in one column, excluded on typed columns by '
@@ -271,7 +271,23 @@ PROPS['C11'] = dict(lean=['Mkdb.Props.C11'], facts=STORE_FACTS, runs=[dict(cmd='
     assumptions=['keys arrive in ascending order per tree (engine: shared counter; replay: logged ids)'],
     trusted_base=['models Mkdb/Model/Tree.lean, Store.lean; Spec/TreeInv.lean (invariant), Spec/Shape.lean (executable checker on dumps)'])
 PROPS['C14'] = dict(lean=['Mkdb.Props.C14'], facts=STORE_FACTS, runs=[dict(cmd='db', proto='db', args=['c14'])],
-    sig_filter=r'db:(failed-statement-changed-table|failed-statement-applied-row-prefix|failed-create-left-table|invalid-statement-accepted)', claim='pending', note='pending', rule='')
+    sig_filter=r'db:(failed-statement-changed-table|failed-statement-applied-row-prefix|failed-create-left-table|invalid-statement-accepted)', 
+    claim='Proof (partial): about the heap model of storage/relation.go + engine/*.go, with "changes nothing" = SameData (every visible page, every dirty bit, '
+          'the data file, the header on disk, the locating header fields; counters may advance, pages may be pulled into the cache) and the log untouched, hence also after '
+          'a restart: C14_insert_first_row (unknown table, column-count mismatch, type mismatch, out-of-range integer, duplicate key), C14_insert_oversized_row, '
+          'C14_create_table (duplicate table, out-of-range column length, catalog row too large - table or column name too long), C14_delete; '
+          'C14_insert_kth_row states exactly what happens when the k-th row (k >= 2) is refused: error returned, nothing logged, but the rows before it stay applied in the '
+          'cache - the KNOWN FINDING db:failed-statement-applied-row-prefix (same in the implementation; not repaired). Not covered by a theorem: statement-level UPDATE '
+          '(update_err needs a uniqueness hypothesis), and CREATE TABLE errors that could only arise on a damaged catalog. The proof attempt for CREATE TABLE produced a Lean '
+          'counterexample that was a real defect (long table/column names; repaired, a86c798); C14_create_table_long_column_witness is its kernel-checked regression. '
+          'Tie: every kind of failing statement with the invalid row at every position k of multi-row statements, failing UPDATE/DELETE/CREATE TABLE (duplicate, over-long '
+          'lengths, over-long names at the k-th column), through RelationService; SELECT * of all tables and sys_schema before and after, after reopen and after crash+recovery; '
+          'model compared page by page; the judge requires the tables and catalog of the spec before the statement.',
+    note=STORE_NOTE,
+    rule='10 (thorough 80) histories of 4-9 failing statements each, n in 1..10 rows with the invalid one at a random position, nine failure families; '
+         'each followed by SELECT * of every table and, at random, reopen or crash+recovery. Non-trivial: a failing multi-row statement with k >= 2; distinct by operation text.',
+    assumptions=['statements run one at a time (C13)'],
+    trusted_base=['models Mkdb/Model/Store.lean, Engine.lean; Spec/Unchanged.lean'])
 
 PROPS['C03'] = dict(lean=['Mkdb.Props.C03'], facts=STORE_FACTS, runs=[dict(cmd='db', proto='db', args=['c03']), dict(cmd='wal', proto='wal')],
     sig_filter=r'(db:(image-.*|panic:.*|hang:.*)|wal:.*)',
